@@ -124,6 +124,17 @@ def _is_none(an, op):
     return bool(src) and all(x[0] == 'call' and x[1].startswith('<std::option::Option') and x[1].endswith('as std::default::Default>::default') for x in src)
 
 
+def _const_signature(prog, name):
+    """signature of an associated constant naming a default (`QueueMode::DEFAULT`): from the evaluated constant's value"""
+    for c_ in prog.crates.values():
+        for k_ in c_.j.get('consts', []) or []:
+            if k_.get('path') == strip_generics(str(name)) and str(k_.get('ty', '')) == QMODE_T:
+                v_ = str(k_.get('value', ''))
+                if v_.startswith(QMODE_T + '::'):
+                    return ('QueueMode', v_.split('::')[-1])
+    return None
+
+
 def ret_signature(prog, path, depth=0):
     """what a constructor-like function of the crate returns, as far as the defaults are concerned: ('Timeouts', (field values..))
     with 'None' for an absent timeout, ('QueueMode', variant) - followed through calls of other such functions; None = not understood"""
@@ -141,6 +152,11 @@ def ret_signature(prog, path, depth=0):
                     sigs.add(('QueueMode', s.rv.j['variant']))
                 else:
                     sigs.add(('Timeouts', tuple('None' if _is_none(an, o) else '?' for o in s.rv.ops)))
+        for s in blk.stmts:
+            if s.kind == 'assign' and s.rv.kind == 'use' and s.rv.ops and s.rv.ops[0].kind == 'const' and s.place.is_local() and b.locals[s.place.local]['ty'] == QMODE_T:
+                cs = _const_signature(prog, s.rv.ops[0].const.get('v'))
+                if cs:
+                    sigs.add(cs)
         t = blk.term
         if t.kind == 'call' and t.rcallee in prog.bodies and t.rcallee != path and t.dest is not None and t.dest.is_local():
             ty = b.locals[t.dest.local]['ty']
@@ -161,6 +177,8 @@ def operand_signature(prog, b, an, op):
         elif x[0] == 'call':
             t = b.blocks[x[2]].term
             out.add(ret_signature(prog, t.rcallee) if t.rcallee in prog.bodies else None)
+        elif x[0] == 'const' and _const_signature(prog, x[1]):
+            out.add(_const_signature(prog, x[1]))
         elif x[0] in ('arg', 'field', 'upvar', 'unknown', 'const'):
             out.add(None)
     return list(out)[0] if len(out) == 1 else None
@@ -227,6 +245,19 @@ def run(ctx):
                 ev = Eval(an, make_leaf(vu, vc))
                 rows[(vu, vc)] = ev.explore()
                 unknown += [x for x in ev.unknown if x not in unknown]
+        # errors carried in a private type and converted at the boundary (`From<BuilderError> for ConfigError` through `?`): the
+        # variant that reaches the caller is decided inside std's from_residual, where this rule does not look
+        priv_err = sorted({st_.rv.j['adt'] for blk_ in b.blocks for st_ in blk_.stmts if st_.kind == 'assign' and st_.rv.kind == 'agg' and st_.rv.j.get('ak') == 'adt' and
+                           st_.rv.j.get('adt', '').startswith('deadpool_redis::') and st_.rv.j['adt'] != 'deadpool_redis::config::ConfigError' and
+                           any(b2.j.get('impl_trait') == 'std::convert::From' and 'ConfigError' in (b2.j.get('impl_self') or '') and ('From<%s' % st_.rv.j['adt']) in (b2.j.get('impl_trait_ref') or '') for b2 in prog.bodies.values())})
+        if priv_err:
+            ctx.undecide('R19.1', '%s: builder() reports through the private error type %s converted to ConfigError at the boundary: not followed' % (tag, priv_err[0]))
+            continue
+        if len({frozenset(v) for v in rows.values()}) == 1 and not unknown:
+            # no test in builder() distinguishes the four cases: the decision is made elsewhere (a public accessor, a shared
+            # decision function returning a private type) - this rule does not follow it there: no verdict, no alarm
+            ctx.undecide('R19.1', '%s: builder() itself does not test url / connection (the decision is made in a function it calls): not followed' % tag)
+            continue
         if unknown or not news:
             ctx.undecide('R19.1', '%s: the tests on url / connection at line(s) %s are not understood' % (tag, [b.blocks[x].term.line for x in unknown]) if unknown else '%s: no manager constructor call found' % tag)
             continue
@@ -321,8 +352,8 @@ def run(ctx):
         tref = b.j.get('impl_trait_ref', '')
         if not ((self_ty.startswith('redis::') and 'deadpool_redis::' in tref) or (self_ty.startswith('deadpool_redis::') and 'From<redis::' in tref)):
             continue
-        if 'ConfigError' in self_ty:
-            continue
+        if self_ty.split('<')[0].endswith('Error') or 'Error' in tref.split('From<')[-1].split('::')[-1]:
+            continue          # error conversions are not connection descriptions
         n_from += 1
         ctx.saw(b)
         an = prog.an(b)
@@ -451,6 +482,8 @@ def run(ctx):
                 if t_.kind == 'call' and not blk.cleanup and t_.rcallee in prog.bodies and t_.dest is not None and t_.dest.is_local() and b.locals[t_.dest.local]['ty'] in (TIMEOUTS_T, QMODE_T):
                     dsig.setdefault(b.locals[t_.dest.local]['ty'].split('::')[-1], set()).add(ret_signature(prog, t_.rcallee))
                 for st_ in blk.stmts:
+                    if not blk.cleanup and st_.kind == 'assign' and st_.rv.kind == 'use' and st_.rv.ops and st_.rv.ops[0].kind == 'const' and _const_signature(prog, st_.rv.ops[0].const.get('v')):
+                        dsig.setdefault('QueueMode', set()).add(_const_signature(prog, st_.rv.ops[0].const.get('v')))
                     # (a private constructor is part of the visitor in the normal form)
                     if not blk.cleanup and st_.kind == 'assign' and st_.rv.kind == 'agg' and st_.rv.j.get('ak') == 'adt' and st_.rv.j.get('adt') == QMODE_T:
                         dsig.setdefault('QueueMode', set()).add(('QueueMode', st_.rv.j['variant']))
